@@ -188,6 +188,10 @@ func aggUniverse(r *h.Run) []sigAttr {
 		if i == 2 && j == 3 {
 			return true
 		}
+		// a truncated stack / a creator combined with the sleep and lock modifiers
+		if (i == 2 || i == 3) && j == 8 || i == 1 && (j == 2 || j == 3) {
+			return true
+		}
 		return r.Thorough() && j == argsDim && i == 0
 	})
 	if r.Thorough() {
